@@ -4,5 +4,6 @@
    invocation < BatchWrite < commit < BatchWriteDone for an accepted call), Progress (no stuck state,
    acceptance before Stop), Finish (every reachable state has a continuation in which all calls return),
    Witness (pinned defects D08a/D08b, regressions), FaultModel + Fault (store faults: a refused Commit / Batched is
-   terminal, no BatchWriteDone without a successful commit; the batch timer). *)
-From Verif.C08_Batch Require Export Model Base Safety Life Complete Value Order Progress Finish Witness FaultModel Fault.
+   terminal, no BatchWriteDone without a successful commit; the batch timer), Start (concurrent first Enqueue calls:
+   the auto-start; refutation of a non-waiting start flag), Muts (the store's batch contract at the level of mutation calls). *)
+From Verif.C08_Batch Require Export Model Base Safety Life Complete Value Order Progress Finish Witness FaultModel Fault Start Muts.
